@@ -509,7 +509,12 @@ class ExecMixin:
                     if ev == want:
                         self.fired_events.add((c.name, ev))
                         env = self.mkenv(f, st, extra)
-                        self.run_ghost(stmts, env, f, st, txt)
+                        try:
+                            self.run_ghost(stmts, env, f, st, txt)
+                        except Unsupported as ex:
+                            # the event now binds to an instruction where its ghost code cannot be evaluated (an inserted call shifted the
+                            # ordinal, a local was renamed): undecided by itself, execution goes on so that real failures still show
+                            self.oblige(st, f, 'ghost.eval', re.sub(r'\s+', '_', ev), BoolVal(False), None, text='ghost code of event %r cannot be evaluated where it binds: %s' % (ev, ex))
             f = f.parent
 
     def is_ghost_key(self, key):
